@@ -357,7 +357,7 @@ def process(ctx, scs):
 def load_corpus():
     d = leanside.ROOT / 'corpus' / PID
     out = []
-    for f in (sorted(d.glob('*.json')) if d.is_dir() else []):
+    for f in (sorted(x for x in d.glob('*.json') if not x.name.startswith(('seeded-', 'regress-'))) if d.is_dir() else []):
         s_ = json.loads(f.read_text())['scenario']
         out.append({'ops': [s_['ops'][0], {'k': 'obs'}, s_['ops'][1]], 'source_version': s_['source_version'], 'clash': False})
     return out
